@@ -1527,6 +1527,57 @@ fn read_eager<R: io::Read>(rd: &mut bam::io::Reader<R>) -> ReadBack {
     ReadBack { header: Ok(header), recs, end }
 }
 
+/// the same iteration through ONE reused RecordBuf (what callers of read_record_buf do), and through
+/// Reader::record_bufs() (which reuses its own buffer and clones)
+fn read_reused<R: io::Read>(rd: &mut bam::io::Reader<R>) -> Option<(Vec<RecordBuf>, Option<io::Error>)> {
+    let header = rd.read_header().ok()?;
+    let mut recs = Vec::new();
+    let mut r = RecordBuf::default();
+    let end = loop {
+        match rd.read_record_buf(&header, &mut r) {
+            Ok(0) => break None,
+            Ok(_) => recs.push(r.clone()),
+            Err(e) => break Some(e),
+        }
+    };
+    Some((recs, end))
+}
+
+fn read_iter<R: io::Read>(rd: &mut bam::io::Reader<R>) -> Option<(Vec<RecordBuf>, Option<io::Error>)> {
+    let header = rd.read_header().ok()?;
+    let mut recs = Vec::new();
+    let mut end = None;
+    for r in rd.record_bufs(&header) {
+        match r {
+            Ok(r) => recs.push(r),
+            Err(e) => {
+                end = Some(e);
+                break;
+            }
+        }
+    }
+    Some((recs, end))
+}
+
+/// reading record i into a reused buffer == decoding it into a fresh one (same records, same end)
+fn check_reuse(eg: &ReadBack, other: &Option<(Vec<RecordBuf>, Option<io::Error>)>, how: &str) -> V {
+    let (Ok(_), Some((recs, end))) = (&eg.header, other) else { return Ok(()) };
+    let n = recs.len().min(eg.recs.len());
+    // compared through the harness' own representation (floats as bit patterns: NaN == NaN)
+    if let Some(i) = (0..n).find(|i| from_record_buf(&recs[*i], 0) != from_record_buf(&eg.recs[*i], 0)) {
+        let a = from_record_buf(&recs[i], 0);
+        let b = from_record_buf(&eg.recs[i], 0);
+        return bad(
+            &format!("{how}-recordbuf-keeps-previous-{}", first_diff(&a, &b)),
+            format!("record {i} read into a reused buffer differs from the same record decoded into a fresh one"),
+        );
+    }
+    if recs.len() != eg.recs.len() || end.as_ref().map(|e| e.kind()) != eg.end.as_ref().map(|e| e.kind()) {
+        return bad(&format!("{how}-recordbuf-iteration-differs"), format!("{} vs {} records", recs.len(), eg.recs.len()));
+    }
+    Ok(())
+}
+
 /// the lazy reader: block sizes returned by read_record, the records, and how it ended
 fn read_lazy<R: io::Read>(rd: &mut bam::io::Reader<R>) -> Option<(Vec<usize>, Vec<bam::Record>, Option<io::Error>)> {
     rd.read_header().ok()?;
@@ -1560,9 +1611,12 @@ fn end_obs(e: &Option<io::Error>) -> String {
 }
 
 /// the read-back part of the observation for a stream behind `mk` (two fresh readers)
-fn read_obs<R: io::Read>(mut mk: impl FnMut() -> bam::io::Reader<R>) -> (String, ReadBack, Option<(Vec<usize>, Vec<bam::Record>, Option<io::Error>)>) {
+fn read_obs<R: io::Read>(mut mk: impl FnMut() -> bam::io::Reader<R>) -> (String, ReadBack, Option<(Vec<usize>, Vec<bam::Record>, Option<io::Error>)>, V) {
     let eg = read_eager(&mut mk());
     let lz = read_lazy(&mut mk());
+    let reused = read_reused(&mut mk());
+    let iter = read_iter(&mut mk());
+    let reuse_verdict = check_reuse(&eg, &reused, "reused").and_then(|_| check_reuse(&eg, &iter, "record-bufs"));
     let obs = match &eg.header {
         Err(e) => format!("H:Err:{}", nv::errkind(e)),
         Ok(h) => {
@@ -1571,18 +1625,27 @@ fn read_obs<R: io::Read>(mut mk: impl FnMut() -> bam::io::Reader<R>) -> (String,
                 Some((s, _, e)) => (s.iter().map(|n| n.to_string()).collect::<Vec<_>>().join(","), end_obs(e)),
                 None => ("-".into(), "-".into()),
             };
+            let (bcanon, bend) = match &reused {
+                Some((rs, e)) => (
+                    short_or_digest(rs.iter().map(|r| short_or_digest(from_record_buf(r, 0).canon())).collect::<Vec<_>>().join(";")),
+                    end_obs(e),
+                ),
+                None => ("-".into(), "-".into()),
+            };
             format!(
-                "H:{}|R:{}:{}|E:{}|L:{}:{}",
+                "H:{}|R:{}:{}|E:{}|L:{}:{}|B:{}:{}",
                 short_or_digest(hex(&header_text(h))),
                 eg.recs.len(),
                 short_or_digest(canon.join(";")),
                 end_obs(&eg.end),
                 short_or_digest(sizes),
-                lend
+                lend,
+                bcanon,
+                bend
             )
         }
     };
-    (obs, eg, lz)
+    (obs, eg, lz, reuse_verdict)
 }
 
 fn run_file(c: &Case) -> Obs {
@@ -1618,7 +1681,7 @@ fn run_file(c: &Case) -> Obs {
         return Obs::fail(format!("W:{}", bytes_obs(&stream)), "file-accepted-unrepresentable", format!("record {i}: {:?}", reject_reason(&specs[i])));
     }
 
-    let (robs, eg, lz) = match guarded(std::panic::AssertUnwindSafe(|| read_obs(|| bam::io::Reader::from(&stream[..])))) {
+    let (robs, eg, lz, reuse_v) = match guarded(std::panic::AssertUnwindSafe(|| read_obs(|| bam::io::Reader::from(&stream[..])))) {
         Outcome::Done(r) => r,
         Outcome::Panicked(m) => return Obs::fail(format!("W:{}|Panic", bytes_obs(&stream)), "file-read-panic", m),
     };
@@ -1655,7 +1718,7 @@ fn run_file(c: &Case) -> Obs {
             _ => bad(&format!("{pre}file-lazy-reader"), "count or end differs"),
         }
     };
-    let mut verdict = check(&eg, &lz, "");
+    let mut verdict = check(&eg, &lz, "").and(reuse_v);
 
     if mode == "bgzf0" {
         let z = guarded(std::panic::AssertUnwindSafe(|| -> io::Result<(Vec<u8>, Vec<u8>)> {
@@ -1678,7 +1741,7 @@ fn run_file(c: &Case) -> Obs {
                         verdict = bad("bgzf0-stream-differs", format!("{} vs {} bytes", un.len(), stream.len()));
                     } else {
                         match guarded(std::panic::AssertUnwindSafe(|| read_obs(|| bam::io::Reader::new(&file[..])))) {
-                            Outcome::Done((_, eg2, lz2)) => verdict = check(&eg2, &lz2, "bgzf0-"),
+                            Outcome::Done((_, eg2, lz2, rv2)) => verdict = check(&eg2, &lz2, "bgzf0-").and(rv2),
                             Outcome::Panicked(m) => verdict = bad("bgzf0-file-read-panic", m),
                         }
                     }
@@ -1699,7 +1762,7 @@ fn run_file(c: &Case) -> Obs {
 fn run_fread(c: &Case) -> Obs {
     let stream = c.b(0);
     match guarded(std::panic::AssertUnwindSafe(|| read_obs(|| bam::io::Reader::from(&stream[..])))) {
-        Outcome::Done((obs, eg, lz)) => {
+        Outcome::Done((obs, eg, lz, reuse_v)) => {
             // lazy and eager readers share the framing: same number of records unless the eager
             // decoder rejected one, and both stop the same way otherwise
             let v: V = match (&eg.header, &lz) {
@@ -1714,7 +1777,7 @@ fn run_fread(c: &Case) -> Obs {
                 _ => Ok(()),
             };
             let nontrivial = eg.header.is_ok() && !eg.recs.is_empty();
-            Obs::ok(obs, nontrivial).with_verdict(v)
+            Obs::ok(obs, nontrivial).with_verdict(v.and(reuse_v))
         }
         Outcome::Panicked(m) => Obs::fail("Panic", "fread-panic", m),
     }
@@ -2351,6 +2414,42 @@ fn gen_header_text(rng: &mut Rng) -> (String, usize) {
     (t, nref)
 }
 
+/// a record that is "poor" in a random subset of its heap fields (name, CIGAR, sequence, qualities,
+/// data): interleaved with rich records so that every field decoder meets a destination that still
+/// holds more than it is about to write
+fn gen_poor(rng: &mut Rng, nref: usize) -> Spec {
+    let mut s = Spec::default_unmapped();
+    s.nref = nref;
+    s.flags = *rng.pick(&[4u16, 0, 77, 141]);
+    match rng.below(6) {
+        0 => {} // everything missing: l_seq = 0, SEQ and QUAL both `*`
+        1 => {
+            // sequence without qualities (stored as 0xff), nothing else
+            let n = rng.range(1, 6) as usize;
+            s.seq = gen_bases(rng, n);
+        }
+        2 => {
+            // short sequence with qualities, shorter than its predecessor's
+            let n = rng.range(1, 3) as usize;
+            s.seq = gen_bases(rng, n);
+            s.qual = (0..n).map(|_| rng.below(94) as u8).collect();
+        }
+        3 => s.name = Some(vec![b'q']),
+        4 => {
+            s.data = vec![(*b"NM", Val::Num('C', rng.below(256) as i64))];
+        }
+        _ => {
+            let n = rng.range(1, 4) as usize;
+            s.cigar = vec![(0, n)];
+            s.seq = gen_bases(rng, n);
+            if rng.chance(1, 2) {
+                s.qual = vec![255u8.min(93); n];
+            }
+        }
+    }
+    s
+}
+
 /// the 12 record fields of a `file` case
 fn rec_args(s: &Spec, rle: Option<String>) -> Vec<String> {
     s.to_args("raw", rle)[2..].to_vec()
@@ -2386,6 +2485,10 @@ fn gen_file(rng: &mut Rng, w: &mut CaseWriter, idx: usize, big: bool) {
         }
         s.nref = nref;
         push(s, rle, &mut args);
+        // rich then poor, in every field
+        if rng.chance(1, 2) {
+            push(gen_poor(rng, nref), None, &mut args);
+        }
     }
     if big {
         let nops = *rng.pick(&[65536usize, 65537, 66000]);
@@ -2435,6 +2538,13 @@ fn gen_fread(rng: &mut Rng, w: &mut CaseWriter) {
             return;
         }
         starts.push(wr.get_ref().len());
+        if rng.chance(1, 2) {
+            let p = gen_poor(rng, nref);
+            if wr.write_alignment_record(&header, &to_record_buf(&p)).is_err() {
+                return;
+            }
+            starts.push(wr.get_ref().len());
+        }
     }
     let mut stream = wr.into_inner();
     match rng.below(10) {
